@@ -1396,6 +1396,13 @@ impl StateMachine for FileStateMachine {
                 key_len_bytes[7],
             ]) as usize;
 
+            // The records are followed by one trailer: u64 length + lease snapshot, reaching
+            // exactly to the end of the file. A record can never look like that (value length
+            // and term still follow its key), so this is the lease section: stop before it.
+            if key_len == buffer.len() - pos - 8 {
+                break;
+            }
+
             pos += 8;
 
             // Read key
